@@ -1,5 +1,116 @@
-/- Engine `match` (C05): not built yet. -/
+/-
+  Engine `match` (C05).  Same line protocol as harness/match.cpp:
+    M <pattern-hex> <address-hex> <tags-hex> […]   ->  P <off|NULL> M <0|1> A <0|1|-> B <0|1|->
+    X <pattern-hex> <alphabet-hex> <maxlen> <tags>,<tags>,… […]
+                                                   ->  X <n> <hash> <n>:<hash> …
+    W <spec-token>  -> W <wf0> <prefixfree>   (evaluates the decidable predicates of Match/Spec.lean
+                       on a structured pattern; used for the known-finding trigger)
+-/
+import RtoscModel.Match.Path
+import RtoscModel.Match.Copies
+import RtoscModel.Match.Spec
 import Driver.Common
 namespace Driver.MatchEngine
-def engine : Driver.Engine := Driver.stateless (fun _ => "unimplemented")
+open Rtosc Rtosc.Match
+
+def slack : Nat := 32
+
+def zeros (n : Nat) : Bytes := List.replicate n 0
+
+/-- the buffer harness/match.cpp hands to rtosc_match -/
+def buildMsg (addr tags : Bytes) : Bytes :=
+  mkMsg addr tags (zeros ((tags.map zeroArgSize).sum + slack))
+
+/-- `strchr(pattern, ':')` on a C string -/
+def firstColon : Bytes → Option Bytes
+  | [] => none
+  | c :: r => if c = 0 then none else if c = 58 then some (c :: r) else firstColon r
+
+def showB : Option Bool → String
+  | none => "oob"
+  | some true => "1"
+  | some false => "0"
+
+def opM (pat addr tags : Bytes) : String :=
+  let p0 := pat ++ [0]
+  let a0 := addr ++ [0]
+  let msg := buildMsg addr tags
+  let t0 := tags ++ zeros (slack + 1)
+  let pS := match path p0 a0 with
+    | .oob => "oob"
+    | .fail => "NULL"
+    | .ok (ap, _) => toString (offsetIn p0 ap)
+  let mS := showB ((full p0 msg).map (·.1))
+  match firstColon p0 with
+  | none => s!"P {pS} M {mS} A - B -"
+  | some spec => s!"P {pS} M {mS} A {showB (argMatcher spec t0)} B {showB (portMatcherArgs spec msg)}"
+
+def mix (h : UInt64) (s : Bytes) : UInt64 :=
+  (s.foldl (fun h c => h * 1099511628211 + c.toUInt64 + 1) h) * 1099511628211 + 255
+
+/-- all words of length `n` over `alph`, in order of alphabet position -/
+def wordsOfLen (alph : Bytes) : Nat → List Bytes
+  | 0 => [[]]
+  | n + 1 => alph.flatMap fun c => (wordsOfLen alph n).map (c :: ·)
+
+structure Acc where
+  pc : Nat := 0
+  ph : UInt64 := 0
+  mc : Array Nat
+  mh : Array UInt64
+
+def opX (pat alph : Bytes) (maxlen : Nat) (tagv : Array Bytes) : String := Id.run do
+  let p0 := pat ++ [0]
+  let mut acc : Acc := { mc := Array.replicate tagv.size 0, mh := Array.replicate tagv.size 0 }
+  for len in [0:maxlen + 1] do
+    for addr in wordsOfLen alph len do
+      match path p0 (addr ++ [0]) with
+      | .ok _ => acc := { acc with pc := acc.pc + 1, ph := mix acc.ph addr }
+      | _ => pure ()
+      for j in [0:tagv.size] do
+        match full p0 (buildMsg addr tagv[j]!) with
+        | some (true, _) => acc := { acc with mc := acc.mc.modify j (· + 1), mh := acc.mh.modify j (mix · addr) }
+        | _ => pure ()
+  let mut s := s!"X {acc.pc} {acc.ph.toNat}"
+  for j in [0:tagv.size] do
+    s := s ++ s!" {acc.mc[j]!}:{acc.mh[j]!.toNat}"
+  return s
+
+/-- spec token: `<seg>;<seg>;…|<sub 0/1>|<types: N or hex,hex,…>`,
+    seg = `L<hex>` | `E<hex digits>` | `A<hex>,<hex>,…`; empty strings are `-` -/
+def parseSeg (s : String) : Option Seg :=
+  match s.toList with
+  | 'L' :: r => (ofHex (String.ofList r)).map Seg.lit
+  | 'E' :: r => (ofHex (String.ofList r)).map Seg.enum
+  | 'A' :: r => ((String.ofList r).splitOn ",").mapM ofHex |>.map Seg.alts
+  | _ => none
+
+def parsePat (tok : String) : Option Pat :=
+  match tok.splitOn "|" with
+  | [segs, sub, types] => do
+    let sg ← if segs = "" then some [] else (segs.splitOn ";").mapM parseSeg
+    let ty ← if types = "N" then some none else ((types.splitOn ",").mapM ofHex).map some
+    pure { segs := sg, sub := sub = "1", types := ty }
+  | _ => none
+
+def opW (tok : String) : String :=
+  match parsePat tok with
+  | none => "bad-op"
+  | some p => s!"W {if p.wf0 then 1 else 0} {if p.prefixFree then 1 else 0} {toHex p.render}"
+
+def step (line : String) : String :=
+  match words line with
+  | "M" :: p :: a :: t :: _ =>
+    match ofHex p, ofHex a, ofHex t with
+    | some pat, some addr, some tags => opM pat addr tags
+    | _, _, _ => "bad-op"
+  | "X" :: p :: al :: ml :: tg :: _ =>
+    match ofHex p, ofHex al, ml.toNat?, (tg.splitOn ",").mapM ofHex with
+    | some pat, some alph, some maxlen, some tagv =>
+      if alph.isEmpty then "bad-op" else opX pat alph maxlen tagv.toArray
+    | _, _, _, _ => "bad-op"
+  | "W" :: tok :: _ => opW tok
+  | _ => "bad-op"
+
+def engine : Driver.Engine := Driver.stateless step
 end Driver.MatchEngine
